@@ -1,6 +1,6 @@
 #!/bin/bash
 # run every stored seeded change against its property's check (quick tier); one line each
-cd /verif
+cd "$(dirname "$0")/.."
 for d in seeded/*/; do
   n=$(basename $d); id=${n%-*}; v=${n#*-}
   tools/seed_run.sh $id $v ${1:-quick} 2>&1 | tail -1
